@@ -126,6 +126,24 @@ func genC05(t *rapid.T) any {
 		dir := rapid.SampledFrom([]string{"", "ASC", "DESC", "DESC"}).Draw(t, fmt.Sprintf("dir%d", i))
 		c.Keys = append(c.Keys, OrderKey{Col: col.Name, Dir: dir, Desc: dir == "DESC"})
 	}
+	if len(c.Keys) > 0 && rapid.IntRange(0, 5).Draw(t, "repeatkey") == 0 {
+		// a column named twice in the key list, the second time with the other direction: the first occurrence
+		// decides, the repetition only ever sees ties
+		nullable := false
+		for _, col := range avail {
+			if col.Name == c.Keys[0].Col && col.Nullable {
+				nullable = true
+			}
+		}
+		if !nullable {
+			k := c.Keys[rapid.IntRange(0, len(c.Keys)-1).Draw(t, "repeatkey.which")]
+			r := OrderKey{Col: k.Col, Desc: !k.Desc, Dir: "DESC"}
+			if k.Desc {
+				r.Dir = rapid.SampledFrom([]string{"", "ASC"}).Draw(t, "repeatkey.dir")
+			}
+			c.Keys = append(c.Keys, r)
+		}
+	}
 	if len(c.Keys) > 0 && rapid.IntRange(0, 5).Draw(t, "keywhere") == 0 {
 		// a WHERE that names a sort key: equalities with constants below OR / NOT, next to other conjuncts
 		// (the key is not constant in the surviving rows, however much the predicate looks like pinning it)
